@@ -6,13 +6,15 @@ from __future__ import annotations
 ANCHORS: dict[str, list[str]] = {
     "C01": ["gallia.services.uds.core.service.*Request.pdu", "gallia.services.uds.core.service.*Request._from_pdu",
             "gallia.services.uds.core.service.*Request.__init__", "gallia.services.uds.core.utils.sub_function_split",
-            "gallia.services.uds.core.utils.address_and_size_length"],
+            "gallia.services.uds.core.utils.address_and_size_length", "gallia.services.uds.core.utils.uds_memory_parameters",
+            "gallia.services.uds.core.utils.check_range", "gallia.services.uds.core.utils.check_data_identifier", "gallia.services.uds.core.utils.check_sub_function"],
     "C02": ["gallia.services.uds.core.service.*Response.pdu", "gallia.services.uds.core.service.*Response._from_pdu",
-            "gallia.services.uds.core.service.*Response._check_pdu", "gallia.services.uds.core.service.*Response.__init__"],
+            "gallia.services.uds.core.service.*Response._check_pdu", "gallia.services.uds.core.service.*Response.__init__",
+            "gallia.services.uds.core.service.*Response.*_bytes"],
     "C03": ["gallia.services.uds.core.service.*Response.matches", "gallia.services.uds.helpers.parse_pdu",
             "gallia.services.uds.core.service.RawPositiveResponse.service_id", "gallia.services.uds.core.service.SpecializedSubFunctionService._sub_function_type",
             "gallia.services.uds.core.service.UDSRequest.parse_dynamic", "gallia.services.uds.core.service.UDSRequest.from_pdu"],
-    "C04": ["gallia.services.uds.core.client.UDSClient.request_unsafe"],
+    "C04": ["gallia.services.uds.core.client.UDSClient.request_unsafe", "gallia.transports.base.BaseTransport.request_unsafe"],
     "C05": ["gallia.services.uds.core.client.UDSClient._request", "gallia.services.uds.core.client.UDSClient.reconnect",
             "gallia.services.uds.ecu.ECU._tester_present_worker"],
     "C06": ["gallia.transports.doip.DoIPConnection.*", "gallia.transports.doip.DoIPTransport.*", "gallia.transports.doip.GenericHeader.*"],
@@ -50,13 +52,21 @@ NEUTRAL_EXTRA: dict[str, list[str]] = {
     "C05": ["gallia.transports.base.BaseTransport.reconnect", "gallia.transports.base.BaseTransport.request"],
     "C07": ["gallia.transports.hsfz.HSFZTransport.connect", "gallia.commands.discover.hsfz.HSFZDiscoverer.probe"],
     "C08": ["gallia.transports.hsfz.HSFZTransport.connect", "gallia.commands.discover.hsfz.HSFZDiscoverer.probe"],
-    "C09": ["gallia.services.uds.core.utils.check_sub_function", "gallia.utils.unravel"],
-    "C10": ["gallia.utils.unravel", "gallia.services.uds.core.client.UDSClient.request_unsafe"],
-    "C11": ["gallia.command.uds.UDSScanner.setup", "gallia.services.uds.core.utils.bytes_repr", "gallia.services.uds.core.service.UDSRequest.from_pdu",
+    "C09": ["gallia.services.uds.core.utils.check_sub_function", "gallia.utils.unravel", "gallia.services.uds.core.service.DiagnosticSessionControlRequest.__init__",
+            "gallia.services.uds.core.client.UDSClient.request_unsafe"],
+    "C10": ["gallia.utils.unravel", "gallia.services.uds.core.client.UDSClient.request_unsafe", "gallia.services.uds.core.utils.check_range",
+            "gallia.services.uds.core.utils.check_data_identifier", "gallia.services.uds.core.utils.check_sub_function"],
+    "C11": ["gallia.services.uds.core.client.UDSClient.ecu_reset", "gallia.services.uds.core.client.UDSClient.read_data_by_identifier", "gallia.command.uds.UDSScanner.setup", "gallia.services.uds.core.utils.bytes_repr", "gallia.services.uds.core.service.UDSRequest.from_pdu",
             "gallia.command.base.BaseCommand.entry_point"],
     "C12": ["gallia.db.handler.DBHandler.insert_scan_run", "gallia.db.handler.DBHandler.insert_scan_result", "gallia.commands.script.vecu.DbVirtualECU._server",
             "gallia.services.uds.ecu.ECU._request"],
-    "C13": ["gallia.services.uds.core.service.UDSRequest.parse_dynamic"],
+    "C13": ["gallia.services.uds.core.service.UDSRequest.parse_dynamic", "gallia.services.uds.core.utils.sub_function_split",
+            "gallia.services.uds.core.service.UDSRequest.from_pdu"],
+    "C03": ["gallia.services.uds.core.utils.sub_function_split", "gallia.services.uds.core.service.TransferData*.__init__"],
+    "C02": ["gallia.services.uds.core.utils.check_range", "gallia.services.uds.core.utils.check_data_identifier", "gallia.services.uds.core.utils.check_sub_function"],
+    "C15": ["gallia.log._ZstdFileHandler.close"],
+    "C16": ["gallia.commands.script.vecu.RngVirtualECU._server"],
+    "C20": ["gallia.transports.base.TargetURI.location"],
     "C14": ["gallia.services.uds.server.UDSServer.default_response_if_sub_function_not_supported", "gallia.services.uds.server.UDSServer.update_state",
             "gallia.services.uds.core.service.UDSRequest.parse_dynamic"],
     "C19": ["gallia.services.uds.server.UDSServerTransport.handle_request"],
